@@ -89,6 +89,26 @@ def linform(expr, rename=None, inline=None):
     return linear(t, atom=lambda n: ast.unparse(n))
 
 
+_LOG_LEVELS = ("debug", "info", "warning", "warn", "error", "critical", "exception", "log")
+
+
+def is_noise(st):
+    """A statement with no effect on any property: a module-logger call, `pass`, a bare string."""
+    if isinstance(st, ast.Pass):
+        return True
+    if isinstance(st, ast.Expr):
+        v = st.value
+        if isinstance(v, ast.Constant) and isinstance(v.value, str):
+            return True
+        if isinstance(v, ast.Call) and isinstance(v.func, ast.Attribute) and v.func.attr in _LOG_LEVELS and isinstance(v.func.value, ast.Name) and v.func.value.id in ("logger", "logging"):
+            return True
+    return False
+
+
+def strip_noise(stmts):
+    return [s for s in stmts if not is_noise(s)]
+
+
 def single_assignments(fnode, allow_mutated=False):
     """name -> value for locals assigned exactly once by a plain `name = expr`
     (never augmented / re-bound, and - unless allow_mutated - never mutated in place)."""
